@@ -16,8 +16,9 @@ func init() {
 			"(R-C05-FIFO) the only senders on setBuf are Wait, SetWithTTL and Del, the only receivers processItems and Clear, the channel field is assigned once and closed only by Close; " +
 			"(R-C05-ONECONSUMER) `go processItems` occurs exactly once in NewCache and once in Clear, where the drain and the restart come after the stop/done handshake, and the applier's stop arm answers on done and returns without receiving again; " +
 			"(R-C05-TOMB) the applier's itemDelete arm removes the key from the policy and, with the item's own key and conflict, from the map on every path; " +
-			"(R-C05-EXHAUSTIVE) every itemFlag constant has an arm in the applier. " +
-			"Trusted: Go channels are FIFO. NOT decided: the end-to-end statement (needs C06's Wait rule and the history quantifier).",
+			"(R-C05-EXHAUSTIVE) every itemFlag constant has an arm in the applier; " +
+			"(R-C05-WAIT) Wait, the drain point the property is stated against, blocks until its marker has been consumed (rule shared with C06). " +
+			"Trusted: Go channels are FIFO. NOT decided: the end-to-end statement (the history quantifier).",
 		Run: runC05,
 	})
 }
@@ -389,6 +390,7 @@ func runC05(c *Ctx) {
 	L.Rule("R-C05-TOMB", "applier's itemDelete arm: policy.Del(i.Key) and store.Del(i.Key, i.Conflict) on every path", 1)
 	L.Rule("R-C05-EXHAUSTIVE", "every itemFlag constant has an arm in the applier", 3)
 
+	L.Rule("R-C05-WAIT", "the drain point the property quantifies over: Wait sends its marker with a blocking send and returns only after the marker channel was closed (no timeout, no select)", 2)
 	delTombstoneRule(c, "R-C05-DEL")
 
 	fifoRule(c, "R-C05-FIFO")
@@ -396,4 +398,5 @@ func runC05(c *Ctx) {
 
 	tombstoneRule(c, "R-C05-TOMB")
 	flagExhaustiveRule(c, "R-C05-EXHAUSTIVE")
+	waitRule(c, "R-C05-WAIT")
 }
